@@ -419,6 +419,21 @@ theorem correct_chain (ss : List (View ν α)) (along : Nat)
       simp only [decide_eq_true_eq]; exact Or.inl hlt
     rw [d1, d2]
 
+/-- the matrix-side range has the cells and the shape of the tensor range with the same two ranges -/
+theorem correct_mrange (s : View ν α) (rows columns : IndexRange) (ih : s.WF → Correct s)
+    (hw : (View.mrange s rows columns).WF) : Correct (View.mrange s rows columns) := by
+  simp only [View.WF] at hw
+  have h : Correct (View.range s [rows, columns]) :=
+    correct_range s [rows, columns] ih (by simp only [View.WF]; exact ⟨hw.1, hw.2.2⟩)
+  exact h
+
+theorem correct_mreverse (s : View ν α) (rows columns : Bool) (ih : s.WF → Correct s)
+    (hw : (View.mreverse s rows columns).WF) : Correct (View.mreverse s rows columns) := by
+  simp only [View.WF] at hw
+  have h : Correct (View.reverse s [rows, columns]) :=
+    correct_reverse s [rows, columns] ih (by simp only [View.WF]; exact ⟨hw.1, by simp [hw.2]⟩)
+  exact h
+
 /-- **Main induction.**  Every well-formed view has a valid shape and resolves every index tuple
     exactly as documented, without panicking. -/
 theorem View.correct (v : View ν α) : v.WF → Correct v := by
@@ -426,6 +441,8 @@ theorem View.correct (v : View ν α) : v.WF → Correct v := by
   | tensor id t => exact correct_tensor id t
   | matrix id m r c => exact correct_matrix id m r c
   | matrixOf s r c ih => exact correct_matrixOf s r c ih
+  | mrange s rows columns ih => exact correct_mrange s rows columns ih
+  | mreverse s rows columns ih => exact correct_mreverse s rows columns ih
   | tmap s ih => exact correct_tmap s ih
   | range s rs ih => exact correct_range s rs ih
   | mask s ms ih => exact correct_mask s ms ih
